@@ -1,6 +1,6 @@
 """Path context: path condition, universal facts, index terms, obligations, decisions."""
 import z3
-from .values import Infeasible, is_z3, b2z
+from .values import Infeasible, is_z3, b2z, FPS as FPS_
 
 
 class Oblig:
@@ -60,6 +60,7 @@ class Ctx:
         self.oo = None
         self.upreds = {}
         self.no_branch_record = False
+        self.aux = []       # (name, term): results of assumed callees etc. (for counter-model replay)
 
     # -- symbols -----------------------------------------------------------------------------
     def fresh_name(self, base):
@@ -77,6 +78,32 @@ class Ctx:
             self.oo = z3.Real('np_inf')
             self.pc.append(self.oo > 0)
         return self.oo
+
+    def fdiv(self, a, b):
+        """IEEE division abstracted as an uninterpreted function plus true facts about special
+        operands (a weakening of the hypotheses, hence sound for proofs)."""
+        if not hasattr(self, '_fdiv'):
+            from .values import FPS
+            self._fdiv = z3.Function('fdiv', FPS, FPS, FPS)
+            self._fdiv_seen = set()
+        q = self._fdiv(a, b)
+        key = (a.get_id(), b.get_id())
+        if key not in self._fdiv_seen:
+            self._fdiv_seen.add(key)
+            nan, inf, zero, neg = z3.fpIsNaN, z3.fpIsInf, z3.fpIsZero, z3.fpIsNegative
+            self.pc.append(z3.Implies(z3.Or(nan(a), nan(b)), nan(q)))
+            self.pc.append(z3.Implies(z3.And(inf(a), inf(b)), nan(q)))
+            self.pc.append(z3.Implies(z3.And(zero(a), zero(b)), nan(q)))
+            self.pc.append(z3.Implies(z3.And(z3.Not(nan(a)), z3.Not(nan(b)), z3.Not(z3.And(inf(a), inf(b))),
+                                             z3.Not(z3.And(zero(a), zero(b)))), z3.Not(nan(q))))
+            self.pc.append(z3.Implies(z3.And(inf(a), z3.Not(nan(b)), z3.Not(inf(b))), inf(q)))
+            # sign rule for non-NaN results
+            self.pc.append(z3.Implies(z3.Not(nan(q)), neg(q) == z3.Xor(neg(a), neg(b))))
+            # x / x == 1 for finite non-zero x ; x / 1 == x
+            self.pc.append(z3.Implies(z3.And(a == b, z3.Not(nan(a)), z3.Not(inf(a)), z3.Not(zero(a))),
+                                      z3.fpEQ(q, z3.FPVal(1.0, FPS_))))
+            self.pc.append(z3.Implies(z3.fpEQ(b, z3.FPVal(1.0, FPS_)), q == a))
+        return q
 
     def upred(self, name, *keys):
         k = (name,) + tuple(keys)
